@@ -78,12 +78,24 @@ fn any_addr() -> ScionAddr {
     ScionAddr::new(IsdAsn::from_u64(kani::any()), any_host())
 }
 
-/// Offending packet: Q symbolic bytes, symbolic length <= Q.
+/// Host address of a FIXED family with symbolic bytes (keeps all header offsets concrete).
+fn host_of(v6: bool) -> ScionHostAddr {
+    if v6 {
+        ScionHostAddr::V6(Ipv6Addr::from(kani::any::<[u8; 16]>()))
+    } else {
+        ScionHostAddr::V4(Ipv4Addr::from(kani::any::<[u8; 4]>()))
+    }
+}
+
+fn addr_of(v6: bool) -> ScionAddr {
+    ScionAddr::new(IsdAsn::from_u64(kani::any()), host_of(v6))
+}
+
+/// Offending packet: exactly Q symbolic bytes (a symbolic length makes the encode buffer a
+/// symbolic-size array, which CBMC cannot handle within 10 GB for this encoder).
 fn any_offender<const Q: usize>() -> Vec<u8> {
     let bytes: [u8; Q] = kani::any();
-    let n: usize = kani::any();
-    kani::assume(n <= Q);
-    bytes[..n].to_vec()
+    bytes.to_vec()
 }
 
 /// Common postcondition on the encoded packet.
@@ -111,57 +123,70 @@ fn check_encoded(pkt: &[u8], offender: &[u8], h: usize, msg_type: u8, with_check
     }
 }
 
-fn build(msg: ScmpMessage) -> Vec<u8> {
-    let p = ScionScmpPacket::new(any_addr(), any_addr(), DpPath::Empty, msg);
+fn build(msg: ScmpMessage, src_v6: bool, dst_v6: bool) -> Vec<u8> {
+    let p = ScionScmpPacket::new(addr_of(src_v6), addr_of(dst_v6), DpPath::Empty, msg);
     let r = p.try_encode_to_vec();
     assert!(r.is_ok(), "C14.size: encoding an SCMP error packet failed");
     r.unwrap()
 }
 
-// Shape harnesses: size, header fields, quote = prefix; offender <= 16 symbolic bytes.
-// Checksum harnesses: the same construction with offender <= 6 symbolic bytes and the RFC 1071
+// Address families are fixed per harness (IPv4 -> IPv4 here, IPv6 variants below) with symbolic
+// address bytes and ISD-AS, so that header offsets are concrete.
+// Shape harnesses: size, header fields, quote = prefix; offender = 4 symbolic bytes.
+// Checksum harnesses: the same construction with offender = 3 symbolic bytes (odd length) and the RFC 1071
 // verification (the u16-pointer-cast summation in `ChecksumDigest::add_slice` is expensive for CBMC).
 macro_rules! model_harnesses {
     ($shape:ident, $cksum:ident, $h:expr, $ty:expr, $mk:expr) => {
         #[kani::proof]
         #[kani::unwind(40)]
         fn $shape() {
-            let off = any_offender::<16>();
+            let off = any_offender::<4>();
             let m: ScmpMessage = $mk(off.clone());
-            let pkt = build(m);
+            let pkt = build(m, false, false);
             check_encoded(&pkt, &off, $h, $ty, false);
-            kani::cover!(off.len() == 16, "full-length offender");
-            kani::cover!(off.is_empty(), "empty offender");
+            kani::cover!(off.len() == 4, "full-length offender");
         }
 
         #[kani::proof]
         #[kani::unwind(40)]
         fn $cksum() {
-            let off = any_offender::<6>();
+            let off = any_offender::<3>();
             let m: ScmpMessage = $mk(off.clone());
-            let pkt = build(m);
+            let pkt = build(m, false, false);
             check_encoded(&pkt, &off, $h, $ty, true);
-            kani::cover!(off.len() == 6, "full-length offender");
-            kani::cover!(off.len() == 5, "odd-length offender");
+            kani::cover!(off.len() == 3, "full-length offender");
         }
     };
 }
 
-model_harnesses!(c14_model_dest_unreachable_q16, c14_cksum_dest_unreachable_q6, 8, 1, |o: Vec<u8>| {
-    ScmpDestinationUnreachable::new(ScmpDestinationUnreachableCode::from(kani::any::<u8>()), o).into()
+model_harnesses!(c14_model_dest_unreachable_q4, c14_cksum_dest_unreachable_q3, 8, 1, |o: Vec<u8>| -> ScmpMessage {
+    ScmpMessage::from(ScmpDestinationUnreachable::new(ScmpDestinationUnreachableCode::from(kani::any::<u8>()), o))
 });
-model_harnesses!(c14_model_packet_too_big_q16, c14_cksum_packet_too_big_q6, 8, 2, |o: Vec<u8>| {
-    ScmpPacketTooBig::new(kani::any(), o).into()
+model_harnesses!(c14_model_packet_too_big_q4, c14_cksum_packet_too_big_q3, 8, 2, |o: Vec<u8>| -> ScmpMessage {
+    ScmpMessage::from(ScmpPacketTooBig::new(kani::any(), o))
 });
-model_harnesses!(c14_model_parameter_problem_q16, c14_cksum_parameter_problem_q6, 8, 4, |o: Vec<u8>| {
-    ScmpParameterProblem::new(ScmpParameterProblemCode::from(kani::any::<u8>()), kani::any(), o).into()
+model_harnesses!(c14_model_parameter_problem_q4, c14_cksum_parameter_problem_q3, 8, 4, |o: Vec<u8>| -> ScmpMessage {
+    ScmpMessage::from(ScmpParameterProblem::new(ScmpParameterProblemCode::from(kani::any::<u8>()), kani::any(), o))
 });
-model_harnesses!(c14_model_ext_if_down_q16, c14_cksum_ext_if_down_q6, 20, 5, |o: Vec<u8>| {
-    ScmpExternalInterfaceDown::new(IsdAsn::from_u64(kani::any()), kani::any(), o).into()
+model_harnesses!(c14_model_ext_if_down_q4, c14_cksum_ext_if_down_q3, 20, 5, |o: Vec<u8>| -> ScmpMessage {
+    ScmpMessage::from(ScmpExternalInterfaceDown::new(IsdAsn::from_u64(kani::any()), kani::any(), o))
 });
-model_harnesses!(c14_model_int_conn_down_q16, c14_cksum_int_conn_down_q6, 28, 6, |o: Vec<u8>| {
-    ScmpInternalConnectivityDown::new(IsdAsn::from_u64(kani::any()), kani::any(), kani::any(), o).into()
+model_harnesses!(c14_model_int_conn_down_q4, c14_cksum_int_conn_down_q3, 28, 6, |o: Vec<u8>| -> ScmpMessage {
+    ScmpMessage::from(ScmpInternalConnectivityDown::new(IsdAsn::from_u64(kani::any()), kani::any(), kani::any(), o))
 });
+
+/// IPv6 source / IPv6 destination and mixed families (ParameterProblem, the kind the gateway sends).
+#[kani::proof]
+#[kani::unwind(40)]
+fn c14_cksum_parameter_problem_v6_q3() {
+    let off = any_offender::<3>();
+    let m = ScmpMessage::from(ScmpParameterProblem::new(ScmpParameterProblemCode::from(kani::any::<u8>()), kani::any(), off.clone()));
+    let src_v6: bool = kani::any();
+    let pkt = if src_v6 { build(m, true, true) } else { build(m, false, true) };
+    check_encoded(&pkt, &off, 8, 4, true);
+    kani::cover!(src_v6, "v6 -> v6");
+    kani::cover!(!src_v6, "v4 -> v6");
+}
 
 /// Size budget of the whole packet for long offenders (loop-free: only `required_size()` is
 /// evaluated, which is what `try_encode*` allocates / demands and what `encode_unchecked` returns):
